@@ -1,4 +1,5 @@
 import FxVerif.Model.C12
+import FxVerif.Model.C12Sig
 import FxVerif.Model.Util
 /-! line-protocol driver for the C12 model: `lake env lean --run Driver/C12.lean < ops.txt`
 
@@ -11,10 +12,12 @@ ops (numbers decimal, addresses / byte strings hex, `-` = empty):
 * `confirm <c> <oset|batch|bcall> <key…> <bridger> <external> <sig hex | !> <digest D the signature is over> <signer A | ->`
   — answer `ok|err:<kind>` + the confirms stored under the named key + `n=<all confirms stored on the chain>`; the handler
   runs through the key plan regenerated from the Go source (`confirmStepG`)
+* `verifysig <file> <digest> <sig65> <signer> <msgHash> <rec|->` — `verifySig` of that contract file (regenerated source
+  structure, the model's own Keccak over the regenerated `abi.encodePacked` arguments); answer `true|false`
 * `remove <c> <site> <oset|batch|bcall> <key…>` — a pruning site of the source (`deleteSites`, regenerated) removes the
   object; answer `ok` + the confirms left under the key + `live=<0|1>` + `n=<all confirms>`
 -/
-open FxVerif FxVerif.Util FxVerif.Model.C12
+open FxVerif FxVerif.Util FxVerif.Model.C12 FxVerif.Gen.C12Sig
 
 structure Chain where
   tron : Bool
@@ -49,7 +52,11 @@ def cpOf (tron : Bool) (kind : String) (o : Obj) (gid : Nat) : String × List Na
   let s := solPreimage kind o gid
   let hg := g.map keccak256
   let sh := fun (h : Option (List Nat)) => match h with | some b => hex b | none => "none"
-  (sh hg ++ " " ++ (if g.isSome && g == s then "eq" else "ne"), hg.getD [])
+  -- what the confirm HANDLER of this chain style hashes for the object: the encoder the regenerated routes (`cpRoutes`) reach,
+  -- defined only when its address conversion fits the chain's address text; this is the digest confirms are checked against
+  let hp := handlerPreimage tron kind o gid
+  let hd := if hp == g then hg else hp.map keccak256
+  (sh hg ++ " " ++ (if g.isSome && g == s then "eq" else "ne"), hd.getD [])
 
 def showConfirms (st : HState) (k : ObjKey) : String :=
   let es := (st.confirms.filter (·.key == k)).mergeSort (fun a b => a.oracle ≤ b.oracle)
@@ -94,9 +101,24 @@ def doRemove (ch : Chain) (site : String) (k : ObjKey) : Chain × String :=
   ({ ch with st := st' }, "ok " ++ showConfirms st' k ++ " live=" ++ (if (st'.objects.lookup k).isSome then "1" else "0") ++
     " n=" ++ toString st'.confirms.length)
 
+/-- `verifysig <file> <digest> <sig65> <signer> <msgHash> <rec|->`: `verifySig` of the named contract file as its source spells
+it (`solVerifySig`, regenerated), Keccak-256 the model's own, the curve recovery known at ONE point: over `msgHash` with the
+relayer's (v, r, s) it yields `rec` (the harness ran go-ethereum's ecrecover precompile), nothing elsewhere -/
+def doVerifySig (file d sig signer mh rc : String) : String :=
+  match solVerifySigs.find? (fun v => v.file == file), unhex d, unhex sig, hexNat signer, unhex mh with
+  | some V, some dig, some sg, some sn, some mhash =>
+    let v := normV (sg.getD 64 0) + 27
+    let r := sg.take 32
+    let s := (sg.drop 32).take 32
+    let ecr : List Nat → Nat → List Nat → List Nat → Option Nat := fun h id r' s' =>
+      if h == mhash && id + 27 == v && r' == r && s' == s then (if rc == "-" then none else hexNat rc) else none
+    if solVerifySig V keccak256 ecr sn dig v r s then "true" else "false"
+  | _, _, _, _, _ => "bad-op"
+
 def stepLine (s : St) (line : String) : St × String :=
   match words line with
   | "reset" :: _ => ({}, "ok")
+  | ["verifysig", file, d, sig, signer, mh, rc] => (s, doVerifySig file d sig signer mh rc)
   | ["chain", c, style, gid] =>
     match hexNat gid with
     | some g => ({ s with chains := upsert c { tron := style == "tron", gid := g } s.chains }, "ok")
